@@ -783,7 +783,7 @@ theorem C06_acord_execute_sound {P : Type} (Inv : G ι ℝ P → Prop) (slope : 
     `candidate_z_` is true, the private states of AcordAzimuth / AcordHdiff / AcordVector are consistent.  With exact
     observations (`C06S.ExactObs`) the bookkeeping (medians of exact candidates — the norm check cannot hurt) and the
     four modelled strategies preserve it by the step theorems above; any further strategy (polar, traverse, weak checks,
-    intersection: `C06_acord_intersection_sound_partial`) enters with its own soundness as hypothesis
+    intersection: `C06_acord_intersection_sound_of_reset` / `C06_acord_intersection_sound`) enters with its own soundness as hypothesis
     (`C06S.ModelledOrSound`): every coordinate Acord2::execute publishes is the true one -/
 theorem C06_acord_execute_sound_modelled {Q : Type} {lt : ι → ι → Bool} (htri : Tri lt) (T : Truth ι) (xN : ℝ)
     (od : List (Cluster ι ℝ)) (IR : Q → Prop) (ct : Q → Q) (hct : ∀ q, IR q → IR (ct q))
